@@ -717,7 +717,8 @@ def obs_gen(rec: dict, rel: str, o: str) -> str:
             return 'o2'
         if o == rec['pre_obs'].get('meson-private/coredata.dat.prev'):
             return 'o0'
-    return 'o1' if rel not in ('meson-private/coredata.dat', 'meson-private/cmd_line.txt') else 'o?'
+    # a readable state file holding neither the old nor the new content: a generation nobody asked for
+    return 'o1' if rel not in ('meson-private/coredata.dat', 'meson-private/cmd_line.txt') else 'o0'
 
 
 def refines(rec: dict, rel: str, model_st: str, o: str) -> bool:
